@@ -124,6 +124,9 @@ func concretize(c M, cseed int64) built {
 	if num("bigmsg") == 1 { // long messages keep concurrent calls inside the hash for a long time
 		msg = make([]byte, 1<<16)
 	}
+	if num("mlen") > 0 { // a message of exactly this length
+		msg = make([]byte, num("mlen"))
+	}
 	r.Read(msg)
 	rb := make([]byte, 64)
 	r.Read(rb)
@@ -204,6 +207,9 @@ func concretize(c M, cseed int64) built {
 		S.Add(S, new(big.Int).Mul(edL, big.NewInt(j)))
 	case "plus1":
 		S.Add(S, big.NewInt(1)).Mod(S, edL)
+	case "negr": // the signature equation solved for -R instead of R: [S]B - [k]A = -R (same y coordinate, other x)
+		S = new(big.Int).Sub(new(big.Int).Mul(ksign, aExp), rExp)
+		S.Mod(S, edL)
 	case "topbits":
 		S.Add(S, new(big.Int).Lsh(big.NewInt(int64(1+r.Intn(7))), 253))
 	}
@@ -566,6 +572,13 @@ func TestVerifDriver(t *testing.T) {
 				emit("ed.Verify", M{"class": with("kind", "sfix", "sidx", sidx, "akind", "small", "at", r.Intn(8), "rt", r.Intn(8)), "cseed": cs})
 			}
 			emit("ed.Verify", M{"class": with("kind", "flipM"), "cseed": cs})
+			emit("ed.Verify", M{"class": with("skind", "negr"), "cseed": cs})
+			emit("ed.Verify", M{"class": with("skind", "negr", "at", r.Intn(8), "rt", r.Intn(8)), "cseed": cs})
+			if k < 16 { // message lengths around the block sizes an implementation may buffer by (honest signatures, and a changed message)
+				ml := []int{111, 112, 1984, 1985, 2000, 2047, 2048, 2049, 4032, 4033, 4095, 4096, 4097, 5000, 8191, 20000}[k]
+				emit("ed.Verify", M{"class": with("mlen", ml), "cseed": cs})
+				emit("ed.Verify", M{"class": with("mlen", ml, "kind", "flipM"), "cseed": cs})
+			}
 			emit("ed.Verify", M{"class": with("kind", "random"), "cseed": cs})
 			parIns = append(parIns, M{"class": with("bigmsg", 1), "cseed": cs, "exp": ""}, M{"class": with("bigmsg", 1, "at", r.Intn(8), "rt", r.Intn(8)), "cseed": cs, "exp": ""},
 				M{"class": with("skind", "plusL", "j", 1), "cseed": cs, "exp": ""}, M{"class": with("msg", "changed"), "cseed": cs, "exp": ""},
@@ -579,7 +592,7 @@ func TestVerifDriver(t *testing.T) {
 		return
 	}
 	// C07: seeds x messages around the SHA-512 block / padding boundaries of both hashes (32+len and 64+len)
-	lens := []int{0, 1, 2, 31, 32, 33}
+	lens := []int{0, 1, 2, 31, 32, 33, 1984, 1985, 2048, 2049, 4095, 4096, 4097, 5000, 8191, 8192, 8193, 20000}
 	for _, base := range []int{111, 112, 127, 128, 239, 240, 255, 256} {
 		for _, off := range []int{32, 64} {
 			for d := -1; d <= 1; d++ {
